@@ -77,7 +77,10 @@ def judge(case):
             return "bad", "matching returned extra parameters %s" % (sorted(set(res) - set(env)))
     # the same through the template's own instantiation: T has been matched above, now it is called and its instance reordered
     for kind, env, tol in envs[:case.get("ninst", 3)]:
-        inst = T(**env)
+        try:
+            inst = T(**env)
+        except BaseException as e:      # noqa: BLE001
+            return "bad", "instantiating the template at %s raised %s: %s" % (env, type(e).__name__, str(e)[:200])
         inst._operations = [inst._operations[i - 1] for i in perm]
         try:
             res = match_template(T, inst)
@@ -89,7 +92,10 @@ def judge(case):
         if case["edits"]:
             ed = case["edits"][0]["x"]
             k = ed["k"] - 1
-            inst2 = T(**env)
+            try:
+                inst2 = T(**env)
+            except BaseException as e:      # noqa: BLE001
+                return "bad", "instantiating the template at %s raised %s: %s" % (env, type(e).__name__, str(e)[:200])
             inst2._operations = [inst2._operations[i - 1] for i in perm]
             if ed["kind"] == "rename":
                 inst2._operations[k]["op"] = "Zgate"
